@@ -290,10 +290,11 @@ func scenarioTunnel(c *vrun.Ctx) {
 					}
 				}
 			}
-			if ioTimeouts >= 8 {
-				// every unanswered exchange costs the full read deadline of real time; each has been
-				// reported above, the rest of the enumeration would only repeat them
-				c.Cap("tunnel sequences stopped after 8 exchanges that ran into the read deadline")
+			if ioTimeouts >= 1 {
+				// an exchange stayed unanswered twice (first attempt and repetition): that is reported above.
+				// Every unanswered exchange costs the full read deadline of real time, so this worker stops
+				// here; the rest of its enumeration would mostly repeat the finding at minutes per sequence
+				c.Cap("tunnel sequences stopped after a sequence in which an exchange ran into the read deadline twice")
 				return
 			}
 			if caseNo%131 == 0 {
